@@ -15,7 +15,7 @@ func init() {
 		NotDecided:  "Redis' own ordering of pushes versus replies and tracking-mode semantics on the server; the read-lock fast path versus a concurrent Update publishing e.val (a data-race question)."}
 	Registry["C09"] = RuleDef{Module: ".", Run: runC09,
 		Technique:   "must-pass and ordering rules on owner-failure arms, guard rules on what is put on the wire, lock-set and once-rules on flight completion in both stores",
-		Explanation: "Decides (R09a) that on every branch on which the owner's own request failed (transport error on the static path, failed EXEC on the transactional path) the flight is cancelled before the function returns or waits: every error arm passes Cancel, and in the batch path no wait on another flight precedes the cancellations; (R09b) that a command is put on the wire only when the lookup returned neither a hit nor a flight, and the flight arm only waits; (R09c) that a flight is completed exactly once and waiters are woken outside the store lock: lru.Cancel/Update close the entry's channel only for an in-flight entry and after unlocking, the adapter completes a flight and clears its slot in the same critical section, Flight re-checks under the write lock before inserting, and neither store drops in-flight entries on invalidation.",
+		Explanation: "Decides (R09a) that on every branch on which the owner's own request failed (transport error on the static path, failed EXEC on the transactional path) the flight is cancelled before the function returns or waits: every error arm passes Cancel, and in the batch path no wait on another flight precedes the cancellations; (R09b) that a command is put on the wire only when the lookup returned neither a hit nor a flight, and the flight arm only waits; (R09c) that a flight is completed exactly once and waiters are woken outside the store lock: lru.Cancel/Update close the entry's channel only for an in-flight entry and after unlocking, the adapter completes a flight and clears its slot in the same critical section, Flight re-checks under the write lock before inserting, and neither store drops in-flight entries on invalidation. (R09d) a looked-up entry's client-side expiry is consulted only for completed entries, so a pending flight is always joined and never replaced by a second request; (R09e) a failed partial MGET cancels exactly the flights of the keys of its rewritten command.",
 		NotDecided:  "interleavings of waiter arrival versus completion; whether an abandoned owner's reply still arrives (C01/C04)."}
 }
 
@@ -397,7 +397,71 @@ func fetchBatchRules(r *Report, rule string) {
 	_ = fmt.Sprint
 }
 
+// pendingNeverExpiresRule (R09d): an entry whose request is still in flight (typ == 0) is never
+// judged by its client-side deadline when a caller looks it up: the expiry test of a looked-up
+// entry is reached only for completed entries. Otherwise a slow reply makes a later caller replace
+// the pending entry and send a second request, and the first entry's waiters are orphaned.
+func pendingNeverExpiresRule(r *Report) {
+	n := 0
+	for _, name := range []string{"rueidis.(*lru).Flight", "rueidis.(*lru).Flights", "rueidis.(*adapter).Flight"} {
+		fn := r.FnAnchor("R09d", name)
+		if fn == nil {
+			continue
+		}
+		for _, s := range CallSites(fn, "rueidis.(*RedisMessage).relativePTTL") {
+			n++
+			ok := false
+			for _, g := range DomGuards(s.Block) {
+				x, op, y, cok := CmpGuard(g)
+				k, isc := ConstInt(y)
+				if cok && isc && k == 0 && op == token.NEQ && strings.HasSuffix(Desc(x), ".typ") {
+					ok = true
+				}
+			}
+			r.ObSite("R09d", s, "expiry-tested-only-for-completed-entries", ok, "the client-side expiry of a looked-up entry is consulted only when the entry is completed (typ != 0); a pending entry is joined, never replaced")
+		}
+	}
+	r.Anchor("R09d", "expiry tests in the stores' lookups (>= 5)", n >= 5)
+}
+
+// ownedFlightsRule (R09e): when the partial MGET fails, the flights it cancels are exactly the ones
+// it became the owner of - the keys of the rewritten command - not keys that were served from the
+// cache or are owned by another caller's flight.
+func ownedFlightsRule(r *Report) {
+	fn := r.FnAnchor("R09e", "rueidis.(*pipe).doCacheMGet")
+	if fn == nil {
+		return
+	}
+	n := 0
+	for _, s := range Sites(fn, func(in ssa.Instruction) bool { _, ok := CallTo(in, "iface:rueidis.CacheStore.Cancel"); return ok }) {
+		n++
+		key := s.Call().Common().Args[0]
+		sl, _, isel := elemOf(key)
+		own := false
+		if isel {
+			base := sl
+			for {
+				if x, ok := base.(*ssa.Slice); ok {
+					base = x.X
+					continue
+				}
+				break
+			}
+			if c, ok := base.(*ssa.Call); ok && strings.HasSuffix(CalleeName(c), ").Commands") {
+				own = DependsOn(c.Call.Args[0], func(v ssa.Value) bool {
+					cc, ok := v.(*ssa.Call)
+					return ok && strings.HasSuffix(CalleeName(cc), ").MultiGet")
+				})
+			}
+		}
+		r.ObSite("R09e", s, "cancels-only-owned-flights", own, "the keys whose flights are cancelled are taken from the rewritten command (the misses this call owns), not from the caller's full key list")
+	}
+	r.Anchor("R09e", "doCacheMGet: cancel sites", n >= 1)
+}
+
 func runC09(r *Report) {
+	pendingNeverExpiresRule(r)
+	ownedFlightsRule(r)
 	p := r.P
 	const P = "rueidis.(*pipe)."
 	isCancel := func(in ssa.Instruction) bool { _, ok := CallTo(in, "iface:rueidis.CacheStore.Cancel"); return ok }
